@@ -49,7 +49,7 @@ import odl
 from mc.ref import opalgebra as A
 
 PROPERTY = 'C04'
-BUDGET = {'quick': 900, 'thorough': 3300}
+BUDGET = {'quick': 1500, 'thorough': 3300}
 
 UNSPEC = 'unspecified'      # pseudo-symptom: documentation leaves the case open
 TOL_INEXACT = 1e-12         # relative to the largest magnitude met while evaluating
